@@ -1,9 +1,14 @@
 package main
 
+// hb: harness files of a check in package biscuit = the shared library of harness helpers + its own files
+func hb(extra ...string) []string {
+	return append([]string{"c01_chain.go", "c16_keyid.go", "authz_gen.go", "c04_authz.go", "authz_rel.go", "c08_hist.go", "c10_hostile.go"}, extra...)
+}
+
 func init() {
 	checks = append(checks, &CheckSpec{
 		Prop:    "C01",
-		Harness: []string{"c01_chain.go"},
+		Harness: hb(),
 		Entries: []EntrySpec{
 			{Pkg: "biscuit", Func: "VerifC01Chain", Quick: p("blocks", 1), Thorough: p("blocks", 2), Covers: []string{"accepted", "rejected"}, Solver: "z3-new"},
 			{Pkg: "biscuit", Func: "VerifC01Honest", Quick: p("blocks", 3), Thorough: p("blocks", 5), Covers: []string{"done"}},
@@ -28,7 +33,7 @@ func init() {
 	}, stdAssumptions...)
 	checks = append(checks, &CheckSpec{
 		Prop:    "C16",
-		Harness: []string{"c01_chain.go", "c16_keyid.go"},
+		Harness: hb(),
 		Entries: []EntrySpec{
 			{Pkg: "biscuit", Func: "VerifC16Travels", Quick: p("blocks", 1), Thorough: p("blocks", 4), Covers: []string{"done"}},
 			{Pkg: "biscuit", Func: "VerifC16Lookup", Quick: p(), Thorough: p(), Covers: []string{"looked-up", "no-key", "key-found"}},
@@ -42,7 +47,7 @@ func init() {
 	})
 	checks = append(checks, &CheckSpec{
 		Prop:    "C17",
-		Harness: []string{"c01_chain.go", "c16_keyid.go"},
+		Harness: hb(),
 		Entries: []EntrySpec{
 			{Pkg: "biscuit", Func: "VerifC17Revocation", Quick: p("blocks", 4), Thorough: p("blocks", 6), Covers: []string{"done"}},
 		},
@@ -55,7 +60,7 @@ func init() {
 	})
 	checks = append(checks, &CheckSpec{
 		Prop:    "C09",
-		Harness: []string{"c01_chain.go", "c16_keyid.go"},
+		Harness: hb(),
 		Entries: []EntrySpec{
 			{Pkg: "biscuit", Func: "VerifC09Sealed", Quick: p("blocks", 1), Thorough: p("blocks", 2), Covers: []string{"frozen", "tamper-rejected"}},
 		},
